@@ -193,10 +193,22 @@ def run(case, tmp):
         with open(fhdr, "r") as fh, open(fbil, "rb") as fd:
             g2 = Grid.from_stream(fh, fd)
     else:
+        # the archive also holds another grid, stored first, whose member
+        # names end with / contain the requested ones
+        other = Grid("other", 2, 3, dtype=np.float32, nodata=-1.,
+                     cellsize=7., xllcorner=-1., yllcorner=-2.)
+        other.data = np.arange(6, dtype=np.float32).reshape(3, 2)
+        fo = tmp / "other.bil"
+        other.save(fo)
         fz = tmp / "arch.zip"
         with zipfile.ZipFile(fz, "w") as z:
+            z.write(fo.with_suffix(".hdr"), "old_sub/tg.hdr")
+            z.write(fo, "old_sub/tg.bil")
+            z.write(fo.with_suffix(".hdr"), "filled_sub/tg.hdr")
+            z.write(fo, "filled_sub/tg.bil")
             z.write(fhdr, "sub/tg.hdr")
             z.write(fbil, "sub/tg.bil")
+            z.write(fo.with_suffix(".hdr"), "sub/tg.hdr.bak")
         g2 = Grid.from_zip(fz, "sub/tg.hdr")
     check_meta(g, g2, f"save/{loader}")
     check_data(data, g2.data, f"save/{loader} (byte order "
@@ -260,6 +272,41 @@ def run(case, tmp):
                         "float64 grid")
     c5.fill(3.0)
     check_data(data, g.data, "fill on clone(float64) changed the original")
+    # a grid whose type was changed is a grid like any other: its dictionary
+    # rebuilds it (type and no-data value of the new type)
+    for newdt in (np.int64, np.float32):
+        if dt.kind == "f" and newdt is np.int64 and \
+                not np.all(np.isfinite(data)):
+            continue
+        try:
+            c6 = g.clone(newdt)
+        except (ValueError, OverflowError):
+            continue
+        nd6 = c6.nodata
+        if isinstance(nd6, (float, np.floating)) and \
+                not np.isfinite(float(nd6)) and newdt is np.int64:
+            continue            # NaN / inf no-data has no integer form
+        try:
+            if float(nd6) != float(newdt(nd6)):
+                continue        # not representable in the new type
+        except (ValueError, OverflowError):
+            continue
+        d6 = json.loads(json.dumps(c6.to_dict(), default=lambda o: o.item()
+                                   if hasattr(o, "item") else str(o)))
+        try:
+            r6 = Grid.from_dict(d6)
+        except Exception as e:
+            raise Violation(
+                f"clone({np.dtype(newdt).name}) of a {dt.name} grid with "
+                f"no-data {g.nodata!r}: from_dict(to_dict()) raises "
+                f"{type(e).__name__}: {e}")
+        if np.dtype(r6.dtype) != np.dtype(newdt) or \
+                not same_value(newdt(r6.nodata), newdt(nd6)):
+            raise Violation(
+                f"clone({np.dtype(newdt).name}) -> to_dict -> from_dict: "
+                f"dtype {np.dtype(r6.dtype).name}, no-data {r6.nodata!r} "
+                f"(was {nd6!r})")
+    labels_extra = "clone(dtype)->dict"
 
     # ---- clip
     nr, nc, csz = case["nrows"], case["ncols"], case["csz"]
@@ -362,6 +409,9 @@ def catch_case(draw, tier):
     c["pick"] = [draw(st.integers(0, 63)) for _ in range(2)]
     c["csz"] = draw(st.sampled_from([1., 0.05, 250.]))
     c["xll"] = draw(st.sampled_from([0., -123.456, 1e5]))
+    # type of the flow direction raster handed to the catchment
+    c["fdtype"] = draw(st.sampled_from(["int64", "int64", "int32", "int16",
+                                        "uint8", "float32", "float64"]))
     return c
 
 
@@ -370,9 +420,14 @@ def catch_oracle(case):
     nr, nc = fd.shape
     n = fd.size
     down = G.down_model(fd)
-    g = Grid("fd", nc, nr, dtype=np.int64, cellsize=case["csz"],
+    fdt = np.dtype(case.get("fdtype", "int64"))
+    if np.any(fd < np.iinfo(fdt).min if fdt.kind in "iu" else False) or \
+            (fdt.kind in "iu" and np.any(fd > np.iinfo(fdt).max)) or \
+            (fdt.kind in "iu" and np.any(fd < np.iinfo(fdt).min)):
+        fdt = np.dtype("int64")      # invalid codes outside the small type
+    g = Grid("fd", nc, nr, dtype=fdt.type, cellsize=case["csz"],
              xllcorner=case["xll"], yllcorner=-case["xll"] / 2)
-    g.data = fd
+    g.data = fd.astype(fdt)
     # choose the outlet with the largest area to make it interesting
     sizes = [len(G.area_model(down, c, set())) for c in range(n)]
     outlet = case["outlet"] if sizes[case["outlet"]] > 1 else \
@@ -421,7 +476,8 @@ def catch_oracle(case):
         raise Violation("catchment clone shares its flow grid")
     if inlets:
         labels.append("with-inlets")
-    return {"nt": bool(inlets), "labels": labels}
+    labels.append(f"flowdir-dtype:{fdt.name}")
+    return {"nt": bool(inlets) or fdt.name != "int64", "labels": labels}
 
 
 SUBS = [
